@@ -181,6 +181,34 @@ func (g *wGen) float() string {
 	if g.p(4) {
 		return g.pick(wFloatsOOD)
 	}
+	if g.p(25) {
+		// a random dyadic rational m / 2^j written out exactly, sometimes with padding
+		m := int64(g.rnd.Intn(1 << uint(1+g.rnd.Intn(30))))
+		if g.p(10) {
+			m = m<<20 + int64(g.rnd.Intn(1<<20)) // up to 50 bits
+		}
+		j := uint(g.rnd.Intn(12))
+		f := float64(m) / float64(int64(1)<<j)
+		if g.p(40) {
+			f = -f
+		}
+		t := strconv.FormatFloat(f, 'f', -1, 64)
+		switch g.rnd.Intn(8) {
+		case 0:
+			if f >= 0 {
+				t = "+" + t
+			}
+		case 1:
+			if strings.Contains(t, ".") {
+				t += "00"
+			}
+		case 2:
+			if f >= 0 {
+				t = "00" + t
+			}
+		}
+		return t
+	}
 	return g.pick(wFloats)
 }
 func (g *wGen) rank() string {
